@@ -55,6 +55,20 @@
 (*                  cache's nil test: live-only -> panic   (H-C19-1)       *)
 (*   "nilRegConfig" a file without any registration key leaves             *)
 (*                  Config.RegConfig nil; ParseConfig dereferences it      *)
+(* and two deviations no defect of the as-found tree but seeded changes    *)
+(* showed (broken instances only):                                         *)
+(*   "pubSkipsCovered"  covert_blocklist_public_addrs skips an interface   *)
+(*                  subnet whose ADDRESS a configured entry covers: with   *)
+(*                  the shipped 127.0.0.1/32 the rest of 127/8 ("lonet")   *)
+(*                  stays dialable                                         *)
+(*   "detectorPblWhenSharing"  the phantom blocklist is applied at two     *)
+(*                  sites - ValidateRegistration for every source but the  *)
+(*                  local detector, ingestRegistration (after the share)   *)
+(*                  for the local detector; the second one only runs when  *)
+(*                  enable_share_over_api is on                            *)
+(* A phantom entry counts as enforced when no registration on a phantom    *)
+(* inside it is SERVED (made valid by the real ingestRegistration), from   *)
+(* whatever source it arrives and whether sharing is on or off.            *)
 (***************************************************************************)
 EXTENDS Naturals, FiniteSets, Sequences, TLC
 
@@ -90,7 +104,7 @@ PblEntries(v) == CASE v = "A" -> {"p192"} [] v = "ws" -> {"p192", "pws"} [] v \i
 Bad == {"cBAD", "aBAD", "dBAD", "pBAD"}           \* cannot be parsed
 Blank == {"cws", "aws", "pws", "sfc00ws"}         \* parse once surrounding blanks are trimmed
 
-CovertProbes == {"c198", "cdb8b", "c100", "cws", "a203", "adb8a", "aws", "out", "lo",
+CovertProbes == {"c198", "cdb8b", "c100", "cws", "a203", "adb8a", "aws", "out", "lo", "lonet",
                  "s127", "s10", "s172", "s192", "sfc00ws", "sfe80", "sv6lo"}
 DomainProbes == {"dblk", "dloc", "doth", "sdloc"}
 PhantomProbes == {"p192", "pws"}
@@ -138,8 +152,17 @@ Accepts(r, sf) == ParseOK(r) /\ r.ld # "bad" /\ r.nd # "bad" /\ r.geo \notin {"m
 LiveShape(r) == [ll |-> r.ld \in {"zero", "valid"}, nl |-> r.nd \in {"zero", "valid"}]
 
 \* ------------------------------------------------------------------ measurement
+\* "lo" is a local interface address, "lonet" another address of that interface's subnet (127.0.0.2 in 127.0.0.1/8)
+PubCovers(p, pl) == \/ p \in {"lo", "s127", "sv6lo"}
+                    \/ p = "lonet" /\ ~("pubSkipsCovered" \in Defects /\ "s127" \in pl.cbs)
 CovertBlocked(p, pl) == IF pl.cas # {} THEN p \notin pl.cas                   \* allowlist takes precedence
-                        ELSE p \in pl.cbs \/ (pl.pub /\ p \in {"lo", "s127", "sv6lo"})   \* local interface addresses
+                        ELSE p \in pl.cbs \/ (pl.pub /\ PubCovers(p, pl))     \* local interface subnets
+\* where the phantom blocklist is applied: registrations arrive from the local detector, the API / DNS registrars and
+\* from peer stations (pre-scanned), with enable_share_over_api on or off
+Sources == {"detector", "api", "prescan"}
+PhantomRefused(e, pl, src, sharing) ==
+  /\ e \in pl.pbl
+  /\ (src = "detector" /\ "detectorPblWhenSharing" \in Defects) => sharing
 \* the shipped list names the loopback addresses themselves, which public-address blocking also covers
 PrintPanics(m, ls) == "statsGuard" \in Defects /\ ls.ll /\ ~ls.nl /\ m \in {"liveness", "stats"}
 Proj(s, pl, sl, ls) ==
@@ -147,7 +170,7 @@ Proj(s, pl, sl, ls) ==
     THEN [up |-> TRUE,
           covert |-> {p \in CovertProbes : CovertBlocked(p, pl)},
           domain |-> pl.cbd \cap DomainProbes,
-          phantom |-> pl.pbl \cap PhantomProbes,
+          phantom |-> {e \in PhantomProbes : \A src \in Sources, sharing \in BOOLEAN : PhantomRefused(e, pl, src, sharing)},
           sel |-> sl, geo |-> "empty",      \* no GeoIP database exists in the sandbox: always the empty database
           hk |-> {m \in Modules : ~PrintPanics(m, ls)}]
     ELSE [up |-> FALSE, covert |-> {}, domain |-> {}, phantom |-> {}, sel |-> "none", geo |-> "none", hk |-> {}]
@@ -238,6 +261,7 @@ AcceptedMeansEnforced ==
     /\ (want.cas = {}) => \A e \in want.cbs : CovertBlocked(e, pol)
     /\ want.cbd \subseteq Proj(st, pol, sel, lshape).domain
     /\ want.pbl \subseteq Proj(st, pol, sel, lshape).phantom
+    /\ (want.cas = {} /\ pol.pub) => {"lo", "lonet"} \subseteq Proj(st, pol, sel, lshape).covert
 \* nothing is in force that the configuration does not name
 NothingExtra == st = "up" => (pol.cbs \subseteq want.cbs /\ pol.cas \subseteq want.cas /\ pol.cbd \subseteq want.cbd /\ pol.pbl \subseteq want.pbl)
 
